@@ -7,7 +7,7 @@
 //! Oracle everywhere: solo replay — a fresh instance fed the node's own op log with no other
 //! instance alive must reproduce every recorded output bit for bit.
 
-use crate::driver::{conclude, run_stage, StageOut};
+use crate::driver::{conclude, hermetic_exec, run_stage_opt, StageOut};
 use crate::gen::{self, Tier};
 use crate::report;
 use crate::rng::{fnv, fnv_u64, run_seed, Rng};
@@ -49,13 +49,6 @@ fn viol(class: &str, kind: Kind, step: usize, detail: String, expected: Vec<Stri
         got,
         oracle: "solo replay: a fresh instance fed this node's own op log (parent's log up to the fork, then its own) with no other instance alive; bit-exact".into(),
     }
-}
-
-fn spec_of(sc: &Scenario, specs: &mut Vec<Option<NodeSpec>>, n: usize) -> Option<NodeSpec> {
-    if n < sc.nodes.len() {
-        return Some(sc.nodes[n]);
-    }
-    specs.get(n).cloned().flatten()
 }
 
 /// apply one op to a node, recording what was observed
@@ -581,7 +574,7 @@ fn corpus_scenario(idx: u64, specs: &[NodeSpec], ms: &[u8]) -> Scenario {
 pub fn child(tier: Tier) -> i32 {
     let c = report::ctx();
     let mut total = Stats::default();
-    let a = run_stage("stageA", 20_000, Duration::from_secs(120), &mut total, &|i| generate(&mut Rng::new(run_seed(c.seed, PROP, "stageA", i)), tier, 0), &exec, &[], 0);
+    let a = run_stage_opt("stageA", 20_000, Duration::from_secs(120), &mut total, &|i| generate(&mut Rng::new(run_seed(c.seed, PROP, "stageA", i)), tier, 0), &exec, &[], 0, false);
     let saved = c.jobs;
     let _ = saved;
     let b = run_stage_seq("stageB", 200, &mut total, tier);
@@ -615,7 +608,16 @@ fn run_stage_seq(name: &str, runs: u64, total: &mut Stats, tier: Tier) -> StageO
             st.samples.push(json!({"stage": name, "run": i, "total_ops": sc.ops.len(), "workers": workers, "scenario_first_ops": short}));
         }
         if let Some(v) = exec(&sc, &mut st) {
-            match report::triage(sc.clone(), v, &exec_plain) {
+            let herm = |c: &Scenario| hermetic_exec(PROP, c).unwrap_or(None);
+            let (v, confirmed) = match herm(&sc) {
+                Some(v2) => (v2, true),
+                None => (v, false),
+            };
+            if !confirmed {
+                st.bump("violations_not_reproducible_in_a_fresh_process");
+            }
+            let minimise_with: &dyn Fn(&Scenario) -> Option<Violation> = if confirmed { &herm } else { &exec_plain };
+            match report::triage(sc.clone(), v, minimise_with) {
                 report::Triage::Known(l) => st.known_findings.push(l),
                 report::Triage::New(b) => {
                     let (msc, mv) = *b;
@@ -694,10 +696,10 @@ pub fn run(tier: Tier) -> i32 {
     };
     let specs = corpus_specs();
     let ms = merges();
-    let corpus = run_stage("corpus-merges", corpus_count(&specs), wall_cap, &mut total, &|i| corpus_scenario(i, &specs, &ms), &exec, &[1234], 16);
+    let corpus = run_stage_opt("corpus-merges", corpus_count(&specs), wall_cap, &mut total, &|i| corpus_scenario(i, &specs, &ms), &exec, &[1234], 16, true);
     let mut stages_owned: Vec<StageOut> = vec![corpus];
     if stages_owned[0].found.is_none() {
-        stages_owned.push(run_stage("stageA", a_runs, wall_cap, &mut total, &|i| generate(&mut Rng::new(run_seed(c.seed, PROP, "stageA", i)), tier, 0), &exec, &[0], 20));
+        stages_owned.push(run_stage_opt("stageA", a_runs, wall_cap, &mut total, &|i| generate(&mut Rng::new(run_seed(c.seed, PROP, "stageA", i)), tier, 0), &exec, &[0], 20, true));
     }
     if stages_owned.iter().all(|s| s.found.is_none()) {
         stages_owned.push(run_stage_seq("stageB", b_runs, &mut total, tier));
